@@ -31,6 +31,7 @@ def discrete_grid_pos_to_id(x: int, y: int = 0, width: int = 0, z: int = 0, heig
     int
         The unique ID.
     """
+    width, height = max(width, 1), max(height, 1)  # A zero extent is a single layer
     return (z * width * height) + (y * width) + x
 
 
